@@ -23,6 +23,11 @@ type Ctx struct {
 	secondPass, collectOnly bool
 	cfgOverride             *bounds.Config
 	thoroughOK              map[string]bool
+	lemmas                  map[string]string // module functions modelled by a lemma in BOUNDS (bounds.Config.Lemmas)
+	lemmaEntries            map[string]bool // entries analysed with the lemmas
+	lemmasUsed              map[string]bool
+	modular                 map[string]*bounds.ModSpec // functions analysed as entries of their own under a precondition
+	modularEntries          []*ssa.Function
 	lenPairsSeen            map[ssa.Instruction]bool // length-prefix/data pairs reached by the BOUNDS run (C10, C13, C14)
 	fragLoopsSeen           map[*ssa.BasicBlock]bool // fragment loops whose entry edge the BOUNDS run reached (C10, C14)
 	// functions in which possibly-wrapping narrow arithmetic is reported (rule BOUNDS.WRAP)
